@@ -734,6 +734,75 @@ fn run_volume(job: &Job, part: &mut Part, round: u64) {
     }
 }
 
+/// E1 volume shape with more than 2^16 observations: two value classes (1 and 2^26), so the sum still
+/// decodes to the two per-class counts; observers also flush local batches.
+fn run_volume_large(job: &Job, part: &mut Part, round: u64) {
+    use std::sync::atomic::{AtomicBool, AtomicU64, Ordering};
+    let big = 67108864.0f64; // 2^26
+    let h = Histogram::with_opts(HistogramOpts::new("c02_volume_large", "h").buckets(vec![1.0])).unwrap();
+    let observers = 4usize;
+    let per_thread = if job.thorough { 60_000u64 } else { 20_000 }; // 4 * 20000 = 80000 > 65536
+    let done = AtomicBool::new(false);
+    let finished = AtomicU64::new(0);
+    let snaps = AtomicU64::new(0);
+    let bad: Mutex<Vec<String>> = Mutex::new(Vec::new());
+    let mut cfg = job.run_cfg(round, false);
+    cfg.spurious_den = 16;
+    let out = run_threads(&cfg, observers + 2, &|tid| {
+        if tid < observers {
+            let local = h.local();
+            for i in 0..per_thread {
+                let v = if (i + tid as u64) % 2 == 0 { 1.0 } else { big };
+                if tid % 2 == 0 {
+                    h.observe(v);
+                } else {
+                    local.observe(v);
+                    if i % 64 == 63 {
+                        local.flush();
+                    }
+                }
+            }
+            local.flush();
+            if finished.fetch_add(1, Ordering::SeqCst) + 1 == observers as u64 {
+                done.store(true, Ordering::SeqCst);
+            }
+        } else {
+            let mut last = 0u64;
+            let mut n = 0u64;
+            loop {
+                let fin = done.load(Ordering::SeqCst);
+                let m = h.metric();
+                let hp = m.get_histogram();
+                n += 1;
+                let (sum, count) = (hp.get_sample_sum(), hp.get_sample_count());
+                let s = sum as u64;
+                let (ones, bigs) = (s & ((1 << 26) - 1), s >> 26);
+                let cum = hp.get_bucket()[0].cumulative_count();
+                if sum.fract() != 0.0 || ones + bigs != count || cum != ones || count < last {
+                    bad.lock().unwrap().push(format!("snapshot sum={:?} count={} bucket(le=1)={} decoded ones={} bigs={} previous count={}", sum, count, cum, ones, bigs, last));
+                    break;
+                }
+                last = count;
+                if fin {
+                    break;
+                }
+            }
+            snaps.fetch_add(n, Ordering::SeqCst);
+        }
+    });
+    account_outcome(part, job, round, &out, "volume-large");
+    part.evaluations += 1;
+    let total = observers as u64 * per_thread;
+    part.count("e1_volume_large_observations", total);
+    part.count("e1_volume_large_snapshots", snaps.load(Ordering::SeqCst));
+    if h.get_sample_count() != total {
+        violation(part, job, round, "volume-final-count-wrong", "volume-large", format!("{} observations, get_sample_count = {}", total, h.get_sample_count()), Json::Null);
+    }
+    for b in bad.into_inner().unwrap() {
+        violation(part, job, round, "volume-snapshot-inconsistent", "volume-large", b, Json::Null);
+    }
+}
+
 pub fn run(job: &Job, part: &mut Part) {
     match job.engine {
         Engine::E1 => {
@@ -747,6 +816,9 @@ pub fn run(job: &Job, part: &mut Part) {
                 }
                 if round < 2 || job.thorough {
                     run_volume(job, part, round);
+                }
+                if round == 0 || (job.thorough && round % 4 == 0) {
+                    run_volume_large(job, part, round);
                 }
                 round += 1;
             }
